@@ -50,6 +50,14 @@ CLAIMED.update({
         design="DESIGN.md section 5, C10"),
 })
 
+CLAIMED.update({
+    "C05": dict(
+        text="Deductive proof (Verus): (1) sorted_variables / sorted_functions return a duplicate-free listing of every table entry in ascending rank (comparator closure lifted and verified); (2) lemma: two listings of the same table with pairwise distinct ranks are equal, i.e. the published order cannot depend on hash iteration order; (3) every insertion statement of the variable/function tables in compile.rs (key and rank expressions extracted verbatim) preserves 'ranks unique and below the table size', using the verified contract of variable_order/function_order; (4) the two literal drains iterate a sorted, hence unique, sequence of the literal map.",
+        note="Assumed library contracts: Iterator::collect over HashMap::iter (each entry once, any order), slice sort/sort_by (permutation, ordered by a total order), String as hash key. Struct fields other than `order` are dropped by the extraction; a textual scan checks that no other statement writes `.order` or inserts into the tables. Hidden state (statics, environment), diagnostics text and 'regardless of what was compiled before' are not under contract.",
+        technique="contract-based deductive verification (Verus: function contracts, table invariant at every insertion site, uniqueness lemmas by induction)",
+        design="DESIGN.md section 5, C05"),
+})
+
 NOT_APPLICABLE = {
     "C11": "no contract within reach: the property is about the comment/splice scanner in cpp::process (str::split*/byte slicing without vstd specifications), pest WHITESPACE/COMMENT rules (generated parser) and a relation between two whole compilations",
 }
